@@ -20,13 +20,15 @@ class Fixture:
         db1 = {self.kw: [b"\x01" * 8], b"other": [b"\x07" * 8]}
         db2 = {self.kw: [b"\x02" * 8, b"\x03" * 8]}
         self.e = {1: sch.EDBSetup(key, db1).serialize(), 2: sch.EDBSetup(key, db2).serialize()}
-        self.t = {1: sch.TokenGen(key, self.kw).serialize()}
+        # two tokens: the second keyword is stored in index 1 only (its answer from index 2 is the empty result)
+        self.t = {1: sch.TokenGen(key, self.kw).serialize(), 2: sch.TokenGen(key, b"other").serialize()}
         self.res = {}
         cfgobj = loader.SSEConfig(self.c[1])
         for ei, eb in self.e.items():
-            edb = loader.SSEEncryptedDatabase.deserialize(eb, cfgobj)
-            tk = loader.SSEToken.deserialize(self.t[1], cfgobj)
-            self.res[sch.Search(edb, tk).serialize()] = f"result:_,{ei},1"
+            for ti, tb in self.t.items():
+                edb = loader.SSEEncryptedDatabase.deserialize(eb, cfgobj)
+                tk = loader.SSEToken.deserialize(tb, cfgobj)
+                self.res[sch.Search(edb, tk).serialize()] = f"result:_,{ei},{ti}"
 
     def classify_result(self, b):
         return self.res.get(b, "result:?")
@@ -181,7 +183,14 @@ class Session:
             await self.conn.send("upload_edb", fx.e[ev[1]] if ev[1] != "J" else "not bytes")
         elif k == "search":
             content = fx.t[ev[1]] if ev[1] != "X" else b"short"
-            await self.conn.send("token", content, token_digest=b"d")
+            mode = ev[2] if len(ev) > 2 else "same"
+            if mode == "none":            # the digest field is the client's: it may be missing …
+                await self.conn.send_raw({"type": "token", "sid": self.sid, "content": content})
+            elif mode == "own":           # … the digest of this token, as the project's client sends it …
+                import hashlib
+                await self.conn.send("token", content, token_digest=hashlib.sha256(content).digest())
+            else:                         # … or the same value for every request (a request counter that restarts, a constant)
+                await self.conn.send("token", content, token_digest=b"d")
         elif k == "foreign":
             await self.conn.send("config", pickle.dumps(fx.c[1]), sid=self.sid + "-other")
         elif k == "notype":
